@@ -25,6 +25,7 @@ RULE = (
     "arrays bit-identical to their snapshots; the interaction's velocity view is not writeable. Non-trivial history: contains "
     "evaluate -> time_step -> evaluate with a moved body, a repeated evaluate without a step, and (multi-body) two evaluates into "
     "the shared field before it is consumed. Distinct = digest of the operation trace."
+    " Marker kinematics of real rigid bodies are recomputed from the body state (offsets read once at construction); start times up to 1e9, float32 dt scalars, thread counts handed to the interactions, bodies brought to rest."
 )
 ASSUMPTIONS = ["markers stay >= 2 cells inside the domain", "grid spacing 1/16 and marker counts {7,18,33} (numba compile palette)"]
 BUDGET_S = {"quick": 170.0, "thorough": 3000.0}
